@@ -58,12 +58,14 @@ var c12Alphabet = []string{
 	"v4 = 2 * 3", "v5 = 1 + 1.5", "x = Math.sqrt(2)", "r = (1..3)\nr.first",
 	// locals named like configured top-level methods, and assignments through a configured reader
 	"inspect = a", "proc = s", "loop = 0", "system = s", "s.upcase = 1", "a.length, zb = 1.5, 2", "puts = 1", "h.size = s",
+	// calls that fail argument checking on methods whose declared return type is a union with a placeholder
+	"a.last(\"x\")", "a.pop(\"x\")", "a.first(\"x\")", "a.max(\"x\")", "h.delete(1, 2)", "a.shift(\"x\")", "a.min(\"x\")", "r2 = (1..3)\nr2.first(\"x\")",
 }
 
 func c12(x *ctx) {
 	r := x.run
 	thorough := x.tier == "thorough"
-	r.Rule = "explicit-state search over statement sequences: a fixed prelude (array, string, hash and four union variables), then every sequence of statements from a 42-statement alphabet up to the depth bound, " +
+	r.Rule = "explicit-state search over statement sequences: a fixed prelude (array, string, hash and four union variables), then every sequence of statements from a 50-statement alphabet up to the depth bound, " +
 		"then a probe block generated from the configuration (every instance method of every literal class on a fresh literal receiver); plus, for String, Array and Hash, a subclass whose method writes through the bare name of every inherited zero-argument method (push, <<, index assignment; thorough: concat, merge!, assignment, unshift; in a public and in a private section); plus every corpus program that does not reopen a configured class. " +
 		"State = canonical dump (in-package hook) of every TFrame entry that exists right after configuration loading; invariant: dump after analysis == dump before; " +
 		"black-box oracle: the probe block prints the same types after the program as alone. non-trivial = the program prints records"
